@@ -91,7 +91,7 @@ let float_of_bits (b : M.z) : float =
 let parse_float (t : M.z list) : M.z option =
   let s = string_of_text t in
   let ok = ref (String.length s > 0) in
-  String.iter (fun c -> if not ((c >= '0' && c <= '9') || c = '.' || c = '-' || c = '+') then ok := false) s;
+  String.iter (fun c -> if not ((c >= '0' && c <= '9') || c = '.' || c = '-' || c = '+' || c = 'e' || c = 'E') then ok := false) s;
   if s = "NaN" then Some (bits_of_float Float.nan)
   else if s = "+Inf" || s = "Inf" then Some (bits_of_float Float.infinity)
   else if s = "-Inf" then Some (bits_of_float Float.neg_infinity)
@@ -133,6 +133,14 @@ let format_float (b : M.z) : M.z list =
     end in
   text_of_string s
 
+let canon (f : float) : M.z = if Float.is_nan f then z_of_string "9221120237041090561" else bits_of_float f
+let f2 (op : float -> float -> float) (a : M.z) (b : M.z) : M.z = canon (op (float_of_bits a) (float_of_bits b))
+(* int64(f) on amd64 (CVTTSD2SI): NaN and out-of-range give the "integer indefinite" value MinInt64 *)
+let float_to_int (b : M.z) : M.z =
+  let f = float_of_bits b in
+  if Float.is_nan f || f >= 9223372036854775808.0 || f < -9223372036854775808.0 then z_of_string "-9223372036854775808"
+  else z_of_zar (Z.of_float f)
+
 let oracles () : M.oracles =
   { M.o_ulower = (fun c -> let i = int_of_z c in
                    match Hashtbl.find_opt ulower_tbl i with Some j -> z_of_int j | None -> c);
@@ -140,7 +148,17 @@ let oracles () : M.oracles =
     M.o_format_float = format_float;
     (* filled per case by the harness's table (dispatch op 0) *)
     M.o_re_ok = (fun _ -> true);
-    M.o_load_loc = (fun _ -> None) }
+    M.o_load_loc = (fun _ -> None);
+    M.o_fadd = f2 ( +. ); M.o_fsub = f2 ( -. ); M.o_fmul = f2 ( *. ); M.o_fdiv = f2 ( /. );
+    M.o_fmod = f2 Float.rem;
+    M.o_feq = (fun a b -> float_of_bits a = float_of_bits b);
+    M.o_flt = (fun a b -> float_of_bits a < float_of_bits b);
+    M.o_fle = (fun a b -> float_of_bits a <= float_of_bits b);
+    M.o_int_to_float = (fun i -> bits_of_float (Z.to_float (zar_of_z i)));
+    M.o_uint_to_float = (fun i -> bits_of_float (Z.to_float (zar_of_z i)));
+    M.o_float_to_int = float_to_int;
+    M.o_re_match = (fun _ _ -> false);
+    M.o_parse_time = (fun _ -> None) }
 
 let () =
   let dir = if Array.length Sys.argv > 1 then Sys.argv.(1) else "." in
